@@ -2,40 +2,52 @@ import GardenVerif.Lemmas.Check
 /-!
 C16 — Programs that pass `check` raise no runtime type errors.
 
-FULL STATEMENT (target; NOT proved here in full):
+FULL STATEMENT (the target; NOT proved in full — see "MISSING" below):
 
   theorem check_sound_fragment (P : Check.Program) :
       Check.fullyAnnotated P = true → Check.check P = [] →
       ∀ fuel, (Check.run fuel P).isTypeError = false
 
-where `Check.check` is M8 (Model/Check.lean), `Check.run` the typed reference semantics
+where `Check.check` is M8 (Model/Check.lean: all Error diagnostics of `garden check` on the fully
+annotated monomorphic first-order core fragment), `Check.run` the typed reference semantics
 (Model/TypedSem.lean) and `isTypeError` = wrong operand / argument type, wrong arity, calling a
-non-function, unknown variable, failed annotation check (param / let / return), no matching
-case, scrutinee not an enum, bad pattern (or leaving the fragment).
+non-function, unknown variable, failed annotation check (param / let / return), no matching case,
+scrutinee not an enum, bad pattern (or leaving the fragment).
 
-PROVED (no sorry; all universally quantified over programs, environments and fuel):
+PROVED (no sorry; universally quantified over programs, types, environments and fuel):
 
-* the typing invariant and its three pillars (Lemmas/Check.lean):
-  `value_subsumption`   a value of type A is a value of every well-formed supertype of A
-                        (uses the shape of `is_subtype`, M7);
-  `annotation_check_passes`  a value of static type T passes the evaluator's
-                        `is_subtype(Type::from_value(v), T)` — the param / let / return checks;
-  `canonical_*`         values of type Int / Bool / String are ints / bools / strings.
-* `check_sound_exprs_partial`: progress + preservation, packaged for the big-step semantics, for
-  the sub-fragment `simpleE` (decidable, syntactic): literals, variables, parentheses, all binary
-  operators, `let` with and without hints, blocks, `if` without `else`, `if … else` in CHECKED
-  position (last expression of a block checked against a hint, hinted let, operand of
-  comparison / boolean / `^`, `return e`), `return`. If such an expression type-checks with no
-  diagnostics in a typed environment, then for every fuel its evaluation yields a value of the
-  inferred type in a typed environment, or a `return` of the function's return type, or a
-  NON-type error (division by zero, overflow), or runs out of fuel — never one of the type errors
-  and never `break`/`continue`.
+* The typing invariant `Check.hasTy v T` (deep: every element of a list has the element type)
+  and its pillars
+  - `value_subsumption`: a value of type A is a value of every well-formed supertype of A (by the
+    shape of `is_subtype`, M7);
+  - `annotation_check_passes`: a value of static type T passes the evaluator's
+    `check_type` = `is_subtype(Type::from_value(v), T)` — the param / let / return checks of
+    eval.rs can never fail on a well-typed value (e.g. `[]` : `List<NoValue>` ≤ `List<T>`,
+    `empty_list_passes`);
+  - `canonical_int / _bool / _string`: values of type Int / Bool / String are ints / bools /
+    strings, so operand checks of the operators cannot fail;
+  - environment typing `Check.envOK` is preserved by `let` (`Check.setB_ok`) and gives typed
+    lookups (`Check.lookupB_ok`).
+* `check_sound_exprs_partial` (progress + preservation packaged for the big-step semantics) for
+  the STRAIGHT-LINE sub-fragment `Check.slE` (syntactic, decidable): literals, variables
+  (locals, `None`/`True`/`False`/`Unit`), parentheses, ALL binary operators (arithmetic,
+  comparison, `==`/`!=`, `&&`/`||`, `^`), `let` with and without hints, `return`, blocks of
+  these. If such a block type-checks with NO diagnostic in an environment that types the runtime
+  environment, then for every fuel its evaluation yields a value of the inferred type in a typed
+  environment, or a `return` of a value of the expected return type, or a NON-type error
+  (division by zero, overflow), or runs out of fuel — never a type error, never a stray
+  `break`/`continue`.
+* `check_sound_toplevel_partial`: a program whose toplevel expressions are straight-line and for
+  which `check P = []` never ends in a type error, for every fuel.
 
-MISSING for the full statement (covered by the correspondence + direct oracle of harness/c16.py):
-calls (the induction needs, in addition, that checking an argument leaves the bindings unchanged,
-because arguments are checked left to right but evaluated right to left), assignment / `+=`,
-loops, `match`, list / tuple literals, and `if … else` in INFERRED position (needs the lemma that
-`unify` preserves value typing; `Ty.unify_upper` of C15 gives the subtyping half).
+MISSING for the full statement (covered only by the correspondence and the direct oracle of
+harness/c16.py): `if`/`else`, loops, calls, assignment / `+=`, `match`, list / tuple literals.
+What the induction additionally needs: (1) checking a block leaves the outer bindings unchanged
+(the checker threads its bindings through BOTH branches of an `if`, and through arguments left
+to right while they are evaluated right to left); (2) `unify` preserves value typing (for
+`if … else` / `match` / list literals in inferred position; `Ty.unify_upper` of C15 gives the
+subtyping half); (3) for calls: the body of every function was checked against its annotations —
+`annotation_check_passes` and `value_subsumption` are exactly the facts the call case uses.
 -/
 set_option linter.unusedVariables false
 set_option linter.unusedSimpArgs false
@@ -67,82 +79,75 @@ theorem empty_list_passes (T : Ty) : Ty.sub (typeOf (.list [])) (tList T) = true
 example : hasTy (.list [.some (.int 1), .none]) (tList (tOption tInt)) = true := by
   simp [hasTy, hasTyAll, tList, tOption, tInt, isNamed]
 
-mutual
-/-- The proved sub-fragment. `chk` = the expression is in checked position. -/
-def simpleE (P : Program) : Nat → Bool → TExpr → Bool
-  | 0, _, _ => false
-  | d + 1, chk, e =>
-    match e with
-    | .int _ | .str _ | .retUnit => true
-    | .var x => !(isGlobalName P x) || isValueGlobal x
-    | .paren e => simpleE P d false e
-    | .binop op l r =>
-      if isIntArith op || op == .eq || op == .ne then simpleE P d false l && simpleE P d false r
-      else simpleE P d true l && simpleE P d true r
-    | .letE _ (some _) e => simpleE P d true e
-    | .letE _ none e => simpleE P d false e
-    | .ifE c thn hasElse els =>
-      simpleE P d true c &&
-        (if hasElse then chk && simpleL P d true thn && simpleL P d true els else simpleL P d false thn)
-    | .ret e => simpleE P d true e
-    | _ => false
-def simpleL (P : Program) : Nat → Bool → List TExpr → Bool
-  | 0, _, _ => false
-  | _ + 1, _, [] => true
-  | d + 1, chk, [e] => simpleE P d chk e
-  | d + 1, chk, e :: e2 :: rest => simpleE P d false e && simpleL P d chk (e2 :: rest)
-end
+/-- Soundness of the checker on straight-line blocks (see the header). `ResOK ret T Γ' r`:
+`r` is a value of type `T` in an environment typed by `Γ'`, or a `return` of a value of type
+`ret`, or a non-type error, or a timeout. -/
+theorem check_sound_exprs_partial (P : Program) (d : Nat) (es : List TExpr) (ret : Ty) (exp : Option Ty)
+    (Γ Γ' : Blocks Ty) (ρ : Blocks Val) (T : Ty)
+    (hfrag : slL P d es = true)
+    (hcheck : tcSeq P ret exp Γ es = (T, Γ', []))
+    (hexp : ∀ E, exp = some E → good E = true) (hret : good ret = true)
+    (henv : envOK Γ ρ) :
+    ∀ fuel, ResOK ret T Γ' (evalSeq P fuel ρ es) :=
+  fun fuel => (sound_sl P fuel).2 d es ret exp Γ ρ T Γ' hfrag hcheck hexp hret henv
 
-/-- Outcomes allowed for a well-typed expression of type `T` (function return type `retT`). -/
-def ResOK (retT T : Ty) (Γ' : Blocks Ty) : Res → Prop
-  | .val v ρ' => hasTy v T = true ∧ envOK Γ' ρ'
-  | .ret v => hasTy v retT = true
-  | .brk _ => False
-  | .cont _ => False
-  | .err e => e.isTypeError = false
-  | .timeout => True
+/-- … in particular the outcome is never one of C16's type errors. -/
+theorem check_sound_exprs_no_type_error (P : Program) (d : Nat) (es : List TExpr) (ret : Ty) (exp : Option Ty)
+    (Γ Γ' : Blocks Ty) (ρ : Blocks Val) (T : Ty)
+    (hfrag : slL P d es = true)
+    (hcheck : tcSeq P ret exp Γ es = (T, Γ', []))
+    (hexp : ∀ E, exp = some E → good E = true) (hret : good ret = true)
+    (henv : envOK Γ ρ) (fuel : Nat) (e : RErr)
+    (h : evalSeq P fuel ρ es = .err e) : e.isTypeError = false := by
+  have := check_sound_exprs_partial P d es ret exp Γ Γ' ρ T hfrag hcheck hexp hret henv fuel
+  rw [h] at this
+  simpa [ResOK] using this
 
-theorem fin_inv (exp : Option Ty) (T T' : Ty) (Γ Γ' : Blocks Ty) (d : List Diag)
-    (h : fin exp T Γ d = (T', Γ', [])) :
-    T' = T ∧ Γ' = Γ ∧ d = [] ∧ (∀ E, exp = some E → Ty.sub T E = true) := by
-  unfold fin at h
-  split at h
-  · simp at h; simp [h]
-  · rename_i E
-    split at h
-    · rename_i hs
-      simp at h
-      obtain ⟨h1, h2, h3⟩ := h
-      subst h1 h2 h3
-      simp [hs]
-    · simp at h
+-- a concrete block satisfying the hypotheses: `let x: Int = 1 + 2`, `let s = "a" ^ "b"`, `x < 3`
+example : slL { funs := [], top := [] } 10
+    [.letE "x" (some .int) (.binop .add (.int 1) (.int 2)),
+     .letE "s" none (.binop .concat (.str "a") (.str "b")),
+     .binop .lt (.var "x") (.int 3)] = true := by
+  simp [slL, slE, isGlobalName, isValueGlobal, findFun, reservedNames]
 
-theorem ResOK_mono (retT T T' : Ty) (Γ' : Blocks Ty) (r : Res)
-    (h : ResOK retT T Γ' r) (hT : ∀ v, hasTy v T = true → hasTy v T' = true) : ResOK retT T' Γ' r := by
-  cases r <;> simp [ResOK] at h ⊢ <;> first | exact ⟨hT _ h.1, h.2⟩ | exact h
-
-theorem leaveBlock_ok (retT T : Ty) (Γ' : Blocks Ty) (keep : Bool) (r : Res)
-    (h : ResOK retT T Γ' r) (hk : keep = false → True) :
-    ResOK retT (if keep then T else tUnit) Γ'.tail (leaveBlock keep r) := by
-  cases r <;> simp [ResOK, leaveBlock] at h ⊢
-  case val v ρ =>
-    refine ⟨?_, envOK_tail _ _ h.2⟩
-    cases keep <;> simp [h.1, hasTy, isNamed, tUnit]
-  all_goals exact h
-
-theorem intBinop_ok_val (op : BinOp) (hop : isIntArith op = true ∨ op = .lt ∨ op = .le ∨ op = .gt ∨ op = .ge)
-    (a b : Int64) (v : Val) (h : intBinop op a b = .ok v) :
-    hasTy v (if isIntArith op then tInt else tBool) = true := by
-  cases op <;> simp [isIntArith] at hop <;> simp only [intBinop] at h
-  all_goals (repeat' split at h)
-  all_goals (first | cases h | skip)
-  all_goals simp [hasTy, isNamed, tInt, tBool, isIntArith]
-
-theorem intBinop_ok_err (op : BinOp) (hop : isIntArith op = true ∨ op = .lt ∨ op = .le ∨ op = .gt ∨ op = .ge)
-    (a b : Int64) (e : RErr) (h : intBinop op a b = .error e) : e.isTypeError = false := by
-  cases op <;> simp [isIntArith] at hop <;> simp only [intBinop] at h
-  all_goals (repeat' split at h)
-  all_goals (first | cases h | skip)
-  all_goals simp [RErr.isTypeError]
+/-- Program level: straight-line toplevel expressions of a program that `check` accepts never
+end in a type error. -/
+theorem check_sound_toplevel_partial (P : Program) (d : Nat)
+    (hfrag : ∀ e ∈ P.top, slE P d e = true) (hcheck : check P = []) :
+    ∀ fuel, (run fuel P).isTypeError = false := by
+  intro fuel
+  have hc : checkTop P [[]] P.top = [] := by
+    unfold check at hcheck
+    exact (List.append_eq_nil_iff.mp hcheck).2
+  have key : ∀ (es : List TExpr) (Γ : Blocks Ty) (ρ : Blocks Val), (∀ e ∈ es, slE P d e = true) →
+      checkTop P Γ es = [] → envOK Γ ρ → (runTop P fuel ρ es).isTypeError = false := by
+    intro es
+    induction es with
+    | nil => intros; simp [runTop, Outcome.isTypeError]
+    | cons e rest ih =>
+      intro Γ ρ hs hck henv
+      simp only [checkTop] at hck
+      cases h1 : tcExpr P .any none Γ e with
+      | mk T1 r1 =>
+      cases r1 with
+      | mk Γ1 d1 =>
+      rw [h1] at hck
+      simp at hck
+      obtain ⟨hd1, _, hrest⟩ := hck
+      subst hd1
+      have hres := (sound_sl P fuel).1 d e .any none Γ ρ T1 Γ1 (hs e (by simp)) h1 (by simp)
+        (by simp [good]) henv
+      simp only [runTop]
+      cases hev : eval P fuel ρ e with
+      | val v ρ1 =>
+        rw [hev] at hres
+        simp [ResOK] at hres
+        exact ih Γ1 ρ1 (fun e' he' => hs e' (by simp [he'])) hrest hres.2
+      | ret v => simp [Outcome.isTypeError]
+      | brk ρ1 => rw [hev] at hres; simp [ResOK] at hres
+      | cont ρ1 => rw [hev] at hres; simp [ResOK] at hres
+      | err er => rw [hev] at hres; simp [ResOK] at hres; simp [Outcome.isTypeError, hres]
+      | timeout => simp [Outcome.isTypeError]
+  exact key P.top [[]] [[]] hfrag hc (by simp [envOK, blockOK])
 
 end C16
